@@ -80,7 +80,7 @@ def pack_viol(rviol, scripts):
         ent = {"p": v["p"], "tid": v["tid"], "m": v["m"], "d": v["d"], "line": v["line"]}
         if nper < 5:
             ent["script"] = bytid.get(v["tid"])
-            ent["trace"] = C.extract_trace(v["trace_file"], v["tid"])[:400]
+            ent["trace"] = C.extract_trace(v["trace_file"], v["tid"])[:400] if v["p"] != "*" else []
         seen[k] = ent
         viol.append(ent)
     return viol
